@@ -53,6 +53,44 @@ def scenarios(tier, rng):
     return seeded
 
 
+def selftest20(wd, lines):
+    """binding self-test: corrupted copies of an accepted run (a forwarded bitmap missing / out of order / never sent,
+    the thread reported finished while the session is alive) must be rejected by Trace_GuiThread"""
+    runs = core.split_runs(lines)
+    base = None
+    for (s, e) in runs:
+        evs = [json.loads(x) for x in lines[s:e]]
+        q = [x for x in evs if x["ev"] == "quiet"]
+        if any(x["ev"] == "joined" for x in evs) and q and len(q[-1]["fwd"]) >= 2 and sum(1 for x in evs if x["ev"] == "srv_record") == 2:
+            base = evs; break
+    if base is None:
+        raise core.ToolError("binding self-test: no accepted run with two records and a clean end found")
+    def mut(f):
+        evs = json.loads(json.dumps(base)); return f(evs)
+    def fwd_missing(evs):
+        for x in evs:
+            if x["ev"] == "quiet": x["fwd"] = x["fwd"][:-1] if x["fwd"] else x["fwd"]
+        return evs
+    def fwd_reordered(evs):
+        q = [x for x in evs if x["ev"] == "quiet"][-1]; q["fwd"] = [q["fwd"][1], q["fwd"][0]] + q["fwd"][2:]; return evs
+    def fwd_phantom(evs):
+        q = [x for x in evs if x["ev"] == "quiet"][-1]; q["fwd"] = q["fwd"] + [99]; return evs
+    def joined_while_alive(evs):
+        i = next(k for k, x in enumerate(evs) if x["ev"] == "quiet"); evs.insert(i + 1, {"ev": "joined", "clean": True}); return evs
+    def duplicate_forward(evs):
+        q = [x for x in evs if x["ev"] == "quiet"][-1]; q["fwd"] = q["fwd"] + [q["fwd"][-1]]; return evs
+    names = [("fwd_missing", fwd_missing), ("fwd_reordered", fwd_reordered), ("fwd_phantom", fwd_phantom), ("joined_while_alive", joined_while_alive), ("duplicate_forward", duplicate_forward)]
+    tp = os.path.join(wd, "selftest.trace.ndjson")
+    with open(tp, "w") as f:
+        for n, fn in names:
+            evs = mut(fn); evs[0]["run"] = "self-" + n
+            for x in evs:
+                f.write(json.dumps(x, separators=(",", ":")) + "\n")
+    acc, rej = core.tv_runs_reach("Trace_GuiThread", tp, wd)
+    rejected = {json.loads(r["run_events"][0]).get("run")[5:] for r in rej}
+    return core.forward_selftest([(n, n in rejected) for n, _ in names])
+
+
 def run(tier, seed):
     v = core.Verdict("C20", tier, seed)
     wd = core.workdir("C20")
@@ -95,12 +133,13 @@ def run(tier, seed):
                 what = "event %s is no behaviour of the required design" % r["event"][:200]
             v.violation(key, "scenario %s: %s" % (run_id, what), {"scenario": s, "events": r["run_events"], "tlc": r["tlc_tail"]})
         lines = [l for l in txt.split("\n") if l.strip()]
+        tested = selftest20(wd, lines)
         cov = {"states": mc.distinct, "transitions": mc.generated, "traces_validated_against_impl": accepted,
                "samples": [{"scenario": scs[7], "events": [json.loads(x) for x in lines[:6]]}],
                "evaluations": len(scs), "distinct_nontrivial": len({json.dumps(s["steps"], sort_keys=True) for s in scs}),
                "rule": "packings {one PDU per TLS record, two / three per record, one PDU split over two records, mixed, none, one per record with 0.7 s / 1.3 s of server silence in between} x end modes {ultimatum, close_notify, abrupt close, undecodable PDU of the library's error kind, of an io kind} x {with, without concurrent input writes}"
                        + ("" if tier == "quick" else " x 10 repetitions with seeded random pauses") + "; distinct = distinct scenarios",
-               "as_implemented_model_experiments": exps, "events_validated": len(lines), "checker_cmd": mc.cmd}
+               "as_implemented_model_experiments": exps, "binding_selftest_rejected": tested, "events_validated": len(lines), "checker_cmd": mc.cmd}
         return v.finish("model_checking", cov, [
             "liveness (StopsWithSession, KeepsUp) is checked by TLC on the model under weak fairness of Rx and Gui, no fairness of the server (it may pause for ever); on the implementation it is observed through deadlines: 400 ms without progress = quiet, 1.5 s to join after the end",
             "TLS records = one write of the reference server (OpenSSL emits one record per write below 16 KiB)",
